@@ -223,6 +223,53 @@ func init() {
 								}
 							}
 						}
+						// an object tied to the copy — a field of it, or what a function that was handed the copy returned
+						// (the parameter list bound to the clone): a callee that writes, through it, a field of an object
+						// of the copied type rewrites the copy as well
+						for _, b2 := range f.Blocks {
+							for _, in2 := range b2.Instrs {
+								x, ok := in2.(*ssa.Call)
+								if !ok {
+									continue
+								}
+								g := x.Common().StaticCallee()
+								if g == nil {
+									continue
+								}
+								sum := e.Sum(g)
+								if sum == nil {
+									continue
+								}
+								for i, a := range x.Common().Args {
+									tied := false
+									if ld, ok := a.(*ssa.UnOp); ok && ld.Op == token.MUL {
+										if fa, ok := ld.X.(*ssa.FieldAddr); ok && fa.X == ssa.Value(al) {
+											tied = true
+										}
+									}
+									if c2, ok := a.(*ssa.Call); ok {
+										for _, a2 := range c2.Common().Args {
+											if a2 == ssa.Value(al) {
+												tied = true
+											}
+										}
+									}
+									if !tied {
+										continue
+									}
+									var through []string
+									for _, m := range sum.MutRootedAt(i) {
+										if strings.Contains(m, "."+T+":") {
+											through = append(through, m)
+										}
+									}
+									if len(through) > 0 {
+										sort.Strings(through)
+										bad = append(bad, fmt.Sprintf("an object tied to the copy is handed to %s, which rewrites %s through it: the copy no longer holds what the original holds [%s]", core.FuncName(g), strings.Join(through, ", "), c.P.Pos(x.Pos())))
+									}
+								}
+							}
+						}
 						sort.Strings(bad)
 						if len(bad) > 0 {
 							s.Bad(key, c.P.Pos(al.Pos()), strings.Join(bad, "; "), props...)
